@@ -11,7 +11,7 @@ def norm_out(out: bytes) -> bytes:
 def run(R):
     if not R.build():
         return
-    R.lean(["C15", "C01Driver", "C01Run", "C15Run", "C01RunContext"])
+    R.lean(["C15", "C01Driver", "C01Run", "C15Run", "C01RunContext", "C01RunCreate", "C01RunDelete"])
     import hunted
     hunted.run(R, "C15")
     quick = R.tier == "quick"
